@@ -2,6 +2,7 @@ package c14syncworld
 
 import (
 	"fmt"
+	"math/big"
 	"time"
 
 	"verifsim/worlds/networld"
@@ -265,7 +266,25 @@ func (w *world) answer(c *conn) {
 	r := w.r
 	req := c.pending[0]
 	c.pending = c.pending[1:]
-	policy := r.C.Weighted("answer", []int{8, 2, 3, 1, 1})
+	weights := []int{8, 2, 3, 1, 1}
+	headHeight, skeletonReq := false, false
+	if req.code == you.GetBlockHeadersMsg {
+		var q you.SimGetBlockHeadersData
+		if rlp.DecodeBytes(req.data, &q) == nil {
+			// the adversary knows the downloader's conversation: the first question of a sync cycle
+			// (one header by hash: "how high are you?") and the skeleton question are where a lie
+			// steers the rest of the cycle, so it lies there more often
+			headHeight = q.Origin.Hash != (common.Hash{}) && q.Amount == 1
+			skeletonReq = q.Origin.Hash == (common.Hash{}) && q.Skip > 100
+			if headHeight {
+				weights = []int{8, 1, 3, 1, 1}
+			}
+			if skeletonReq {
+				weights = []int{4, 2, 6, 1, 1}
+			}
+		}
+	}
+	policy := r.C.Weighted("answer", weights)
 	names := []string{"honest", "corrupted", "hostile", "ignored", "honest-twice"}
 	view := w.peerView()
 	var code uint64
@@ -281,7 +300,46 @@ func (w *world) answer(c *conn) {
 		}
 		hs := view.headers(&q)
 		code, payload = you.BlockHeadersMsg, encodeHeaders(hs, q.Light)
-		switch v := r.C.Intn("hostile-headers-answer", 10); {
+		v := r.C.Intn("hostile-headers-answer", 13)
+		if headHeight && len(hs) > 0 && r.C.Chance("inflate-height", 1, 2) {
+			v = 100
+		}
+		if skeletonReq && r.C.Chance("make-up-skeleton", 1, 2) {
+			v = 10
+		}
+		switch {
+		case v == 100:
+			h := types.CopyHeader(hs[0])
+			if r.C.Chance("huge", 1, 3) {
+				h.Number = new(big.Int).Lsh(big.NewInt(1), uint(20+r.C.Intn("bits", 44)))
+			} else {
+				h.Number = new(big.Int).Add(h.Number, big.NewInt(int64(300+r.C.Intn("ahead", 2000))))
+			}
+			hostile, hlabel = encodeHeaders([]*types.Header{h}, q.Light), fmt.Sprintf("the head header under number %v", h.Number)
+		case v >= 10:
+			// headers the peer makes up: real headers under numbers of its choosing (the seal no longer
+			// matches, but nothing has verified a header when the downloader first looks at the numbers)
+			base := q.Origin.Number
+			if base == 0 {
+				base = w.nodeHeight() + 1
+			}
+			menu := [][]uint64{
+				{base, base + q.Skip + 1, base + 2*(q.Skip+1)}, // what was asked for, made up
+				{base + 1000},
+				{1 << 40},
+				{base - 5},
+				{1<<24 + base},
+				{base, 1 << 62},
+				{maxU64()},
+			}
+			pick := r.C.Intn("made-up-numbers", len(menu))
+			var t []*types.Header
+			for i, n := range menu[pick] {
+				h := types.CopyHeader(w.full[1+i%(len(w.full)-1)].Header())
+				h.Number = new(big.Int).SetUint64(n)
+				t = append(t, h)
+			}
+			hostile, hlabel = encodeHeaders(t, q.Light), fmt.Sprintf("made-up headers numbered %v", menu[pick])
 		case v >= 7 && len(hs) > 0:
 			t := make([]*types.Header, len(hs))
 			copy(t, hs)
